@@ -48,7 +48,7 @@ s=open('/verif/DESIGN.md').read()
 i=s.index('### S.7 Seeded changes')
 j=s.index('\n## 0. Summary table')
 # find the rule line before "## 0."
-k=s.rindex('---------------------------------------------------------------------------------------',i,j)
+k=s.index('### S.8 Tools',i,j) if '### S.8 Tools' in s[i:j] else s.rindex('---------------------------------------------------------------------------------------',i,j)
 new='''### S.7 Seeded changes — which check catches which
 
 106 changes: two per property written by sub-agents in round 1 (suffix a, b; scratch worktrees of the pinned commit, only the
